@@ -68,8 +68,11 @@ func checkC02(c *core.Ctx, r *core.Report) {
 		"(2) EXHAUST — each of those switches has all six comparison operators; fopOnString and fopOnBool handle Equals and NotEquals; " +
 		"(3) the time-range predicates TimeRange/MetricsTimeRange.CheckInRange mean start <= t <= end and CheckRangeOverLap means the closed intervals intersect; " +
 		"(5) block range-index pruning is sound for every operator (an event whose block is pruned can never be in the result); " +
+		"(6) where the literal is a float and the stored value an integer, fopOnNumber sets the value's type to float and computes its float view from the member its tag selects, before compareNumberDte (which otherwise compares with the literal's truncated integer view); " +
+		"(7) the range-index check prunes a block for an unparsable literal only after the float parse failed too; " +
+		"(8) both branches of SegmentSearchRequest.JoinRequest (AND, OR) add the other operand's per-block set of columns that passed the index checks to the joined request; " +
 		"(4) the dictionary-encoded block search examines every dictionary word (the scan loops of dechecker.go have no exit other than exhaustion or an error return), since several distinct words can satisfy one filter (case-insensitive match, 5 vs 5.0)."
-	r.NotCovered = "whether literal typing, wildcard/regex translation and case folding are right, AND/OR/NOT composition, agreement of the search clause with the `where` stage (different representation), the 1e-4 tolerance of float equality (treated as an equality atom)"
+	r.NotCovered = "whether literal typing, wildcard/regex translation and case folding are right, AND/OR/NOT composition beyond the join of per-block column sets, agreement of the search clause with the `where` stage (different representation), the 1e-4 tolerance of float equality (treated as an equality atom)"
 
 	eq := core.EqualityCalls{"dtu.AlmostEquals": true, "dtypeutils.AlmostEquals": true}
 	isFop := isNamedType(pkgSutils, "FilterOperator")
@@ -210,6 +213,291 @@ func checkC02(c *core.Ctx, r *core.Report) {
 		}
 	}
 	r.Floor("GUARD", "dictionary scan loops", nScan, 2)
+
+	// ---------------------------------------------------------------- (6) integer value vs fractional literal
+	checkWidening(c, r)
+	// ---------------------------------------------------------------- (7) an unparsable literal prunes only if it is not a number
+	checkPruneParse(c, r)
+	// ---------------------------------------------------------------- (8) AND / OR joins merge the per-block column sets
+	checkJoinMerge(c, r)
+}
+
+func checkJoinMerge(c *core.Ctx, r *core.Report) {
+	fn := c.Fn("pkg/segment/structs", "SegmentSearchRequest.JoinRequest")
+	cmiF := c.Field("pkg/segment/structs", "SegmentSearchRequest.CmiPassedCnames")
+	andK := c.ConstVal(pkgSutils, "And")
+	self, other := fn.Params[0], fn.Params[1]
+	// the operator test
+	var test *ssa.BasicBlock
+	for _, b := range fn.Blocks {
+		if ifi, ok := core.LastIf(b); ok {
+			if bo, ok := ifi.Cond.(*ssa.BinOp); ok && bo.Op == token.EQL {
+				if k, ok := core.ConstIntValue(bo.Y); ok && k == andK {
+					if _, isP := bo.X.(*ssa.Parameter); isP {
+						test = b
+					}
+				}
+			}
+		}
+	}
+	if test == nil {
+		r.Undecided("SIBLING", "structs.SegmentSearchRequest.JoinRequest:operator-test", c.Pos(fn.Pos()), "no `op == And` test found")
+		return
+	}
+	fromField := func(v ssa.Value, p *ssa.Parameter) bool {
+		// v is <p>.CmiPassedCnames[...] (a Lookup, possibly comma-ok) or the field's map itself
+		for i := 0; v != nil && i < 5; i++ {
+			switch x := v.(type) {
+			case *ssa.Lookup:
+				v = x.X
+			case *ssa.Extract:
+				v = x.Tuple
+			case *ssa.UnOp:
+				if fa, ok := x.X.(*ssa.FieldAddr); ok && core.FieldOfAddr(fa) == cmiF && fa.X == ssa.Value(p) {
+					return true
+				}
+				return false
+			default:
+				return false
+			}
+		}
+		return false
+	}
+	loops := core.Loops(fn)
+	for bi, branch := range []*ssa.BasicBlock{test.Succs[0], test.Succs[1]} {
+		label := map[int]string{0: "AND", 1: "OR"}[bi]
+		merged := false
+		for _, b := range fn.Blocks {
+			if !branch.Dominates(b) {
+				continue
+			}
+			for _, in := range b.Instrs {
+				mu, ok := in.(*ssa.MapUpdate)
+				if !ok || !fromField(mu.Map, self) {
+					continue
+				}
+				if _, isLookup := mu.Map.(*ssa.Lookup); !isLookup {
+					if _, isEx := mu.Map.(*ssa.Extract); !isEx {
+						continue // an update of the outer map (creating the block's set), not of a block's set
+					}
+				}
+				// inside a loop ranging over other.CmiPassedCnames[blk]
+				for _, l := range loops {
+					if !l.Body[b] {
+						continue
+					}
+					for _, hi := range l.Header.Instrs {
+						if nx, ok := hi.(*ssa.Next); ok {
+							if rg, ok := nx.Iter.(*ssa.Range); ok && fromField(rg.X, other) {
+								if _, isLookup := rg.X.(*ssa.Lookup); isLookup {
+									merged = true
+								}
+							}
+						}
+					}
+				}
+			}
+		}
+		r.Check(merged, "SIBLING", "structs.SegmentSearchRequest.JoinRequest:"+label+"-join-merges-the-columns-that-passed-the-index-checks", c.Pos(branch.Instrs[0].Pos()),
+			"for a surviving block the other operand's passed-column set is added to this request's set",
+			"the "+label+" join keeps the block but not the other operand's set of columns that passed the index checks: an all-columns term of the later operand is then searched only in the earlier operand's columns, so `status=ok AND 404` returns nothing while `404 AND status=ok` is right")
+	}
+}
+
+// dtypeTests: what the dominating tests of `<param>.Dtype` against constants say in block b.
+// Returns for the given parameter the set of constants the tag is known to equal (eq) / differ from (ne).
+func dtypeKnowledge(b *ssa.BasicBlock, p *ssa.Parameter, tagF *types.Var) (eq map[int64]bool, ne map[int64]bool) {
+	eq, ne = map[int64]bool{}, map[int64]bool{}
+	for d := b; d != nil && d.Idom() != nil; d = d.Idom() {
+		idom := d.Idom()
+		ifi, ok := core.LastIf(idom)
+		if !ok || len(d.Preds) != 1 {
+			continue
+		}
+		bo, ok := ifi.Cond.(*ssa.BinOp)
+		if !ok || (bo.Op != token.EQL && bo.Op != token.NEQ) {
+			continue
+		}
+		k, ok := core.ConstIntValue(bo.Y)
+		if !ok {
+			continue
+		}
+		ld, ok := bo.X.(*ssa.UnOp)
+		if !ok {
+			continue
+		}
+		fa, ok := ld.X.(*ssa.FieldAddr)
+		if !ok || core.FieldOfAddr(fa) != tagF || fa.X != ssa.Value(p) {
+			continue
+		}
+		onTrue := idom.Succs[0] == d
+		if (bo.Op == token.EQL) == onTrue {
+			eq[k] = true
+		} else {
+			ne[k] = true
+		}
+	}
+	return
+}
+
+func checkWidening(c *core.Ctx, r *core.Report) {
+	fn := c.Fn(pkgWriter, "fopOnNumber")
+	cmp := c.Obj(pkgWriter, "compareNumberDte")
+	tagF := c.Field(pkgSutils, "DtypeEnclosure.Dtype")
+	fltF := c.Field(pkgSutils, "DtypeEnclosure.FloatVal")
+	sgnF := c.Field(pkgSutils, "DtypeEnclosure.SignedVal")
+	unsF := c.Field(pkgSutils, "DtypeEnclosure.UnsignedVal")
+	kFloat, kSigned, kUnsigned := c.ConstVal(pkgSutils, "SS_DT_FLOAT"), c.ConstVal(pkgSutils, "SS_DT_SIGNED_NUM"), c.ConstVal(pkgSutils, "SS_DT_UNSIGNED_NUM")
+	name := "writer.fopOnNumber"
+	calls := callsTo(fn, cmp)
+	if len(calls) != 1 {
+		r.Undecided("TAGUNION", name+":compares-through-compareNumberDte", c.Pos(fn.Pos()), "expected exactly one call of compareNumberDte")
+		return
+	}
+	call := calls[0]
+	rec, okr := call.Call.Args[0].(*ssa.Parameter)
+	q, okq := call.Call.Args[1].(*ssa.Parameter)
+	if !okr || !okq {
+		r.Undecided("TAGUNION", name+":compares-through-compareNumberDte", c.Pos(call.Pos()), "the compared enclosures are not the function's parameters")
+		return
+	}
+	// the region where the literal is a float and the stored value is not
+	var region []*ssa.BasicBlock
+	for _, b := range fn.DomPreorder() {
+		qe, _ := dtypeKnowledge(b, q, tagF)
+		_, rn := dtypeKnowledge(b, rec, tagF)
+		if qe[kFloat] && rn[kFloat] {
+			region = append(region, b)
+		}
+	}
+	if len(region) == 0 {
+		r.Violation("TAGUNION", name+":integer-value-widened-for-a-float-literal", c.Pos(call.Pos()), "no code handles `literal is a float and the stored value is not`: compareNumberDte then compares the stored integer with the literal's truncated integer view, so latency=8.5 matches 8 and latency<8.5 misses it")
+		return
+	}
+	inRegion := map[*ssa.BasicBlock]bool{}
+	for _, b := range region {
+		inRegion[b] = true
+	}
+	// (i) the value's type becomes float before the comparison
+	leak := false
+	core.WalkForward(fn, region[0].Instrs[0], func(x ssa.Instruction) bool {
+		if st, ok := x.(*ssa.Store); ok {
+			if fa, ok := st.Addr.(*ssa.FieldAddr); ok && core.FieldOfAddr(fa) == tagF && fa.X == ssa.Value(rec) {
+				if k, ok := core.ConstIntValue(st.Val); ok && k == kFloat {
+					return false
+				}
+			}
+		}
+		if x == ssa.Instruction(call) {
+			leak = true
+		}
+		return true
+	})
+	// the first instruction itself
+	r.Check(!leak, "TAGUNION", name+":integer-value-widened-for-a-float-literal", c.Pos(call.Pos()),
+		"where the literal is a float and the stored value is not, the value's type is set to float before compareNumberDte",
+		"where the literal is a float and the stored value is an integer, compareNumberDte is reached with the value still typed as an integer: it is compared with the literal's truncated integer view (latency=8.5 matches 8, latency<8.5 misses it)")
+	// (ii) the float view is computed from the member the value's tag selects
+	okS, okU := false, false
+	bad := ""
+	for _, b := range region {
+		for _, in := range b.Instrs {
+			ld, ok := in.(*ssa.UnOp)
+			if !ok || ld.Op != token.MUL {
+				continue
+			}
+			fa, ok := ld.X.(*ssa.FieldAddr)
+			if !ok || fa.X != ssa.Value(rec) {
+				continue
+			}
+			f := core.FieldOfAddr(fa)
+			if f != sgnF && f != unsF {
+				continue
+			}
+			eq, ne := dtypeKnowledge(b, rec, tagF)
+			switch f {
+			case sgnF:
+				if eq[kSigned] || (ne[kFloat] && ne[kUnsigned]) {
+					okS = true
+				} else {
+					bad = "SignedVal"
+				}
+			case unsF:
+				if eq[kUnsigned] || (ne[kFloat] && ne[kSigned]) {
+					okU = true
+				} else {
+					bad = "UnsignedVal"
+				}
+			}
+		}
+	}
+	hasFloatStore := false
+	for _, b := range region {
+		for _, in := range b.Instrs {
+			if st, ok := in.(*ssa.Store); ok {
+				if fa, ok := st.Addr.(*ssa.FieldAddr); ok && core.FieldOfAddr(fa) == fltF && fa.X == ssa.Value(rec) {
+					hasFloatStore = true
+				}
+			}
+		}
+	}
+	switch {
+	case bad != "":
+		r.Violation("TAGUNION", name+":float-view-taken-from-the-member-the-tag-selects", c.Pos(call.Pos()), fmt.Sprintf("the stored value's %s is read where its tag is not known to select that member: a signed value is widened from the unsigned member (0 after Reset) or vice versa", bad))
+	case !(okS && okU && hasFloatStore):
+		r.Violation("TAGUNION", name+":float-view-taken-from-the-member-the-tag-selects", c.Pos(call.Pos()), "the float view of the stored value is not computed from both integer members under their tags")
+	default:
+		r.OK("TAGUNION", name+":float-view-taken-from-the-member-the-tag-selects", c.Pos(call.Pos()), "FloatVal is computed from SignedVal under the signed tag and from UnsignedVal under the unsigned tag")
+	}
+}
+
+func checkPruneParse(c *core.Ctx, r *core.Report) {
+	fn := c.Fn("pkg/segment/query/metadata/metautils", "checkRangeIndexHelper")
+	n := 0
+	for _, ret := range core.Returns(fn) {
+		k, ok := ret.Results[0].(*ssa.Const)
+		if !ok || k.Value == nil || k.Value.String() != "false" {
+			continue
+		}
+		// conversion failures that dominate this return
+		failed := map[string]bool{}
+		for d := ret.Block(); d != nil && d.Idom() != nil; d = d.Idom() {
+			idom := d.Idom()
+			ifi, ok := core.LastIf(idom)
+			if !ok || idom.Succs[0] != d || len(d.Preds) != 1 {
+				continue
+			}
+			bo, ok := ifi.Cond.(*ssa.BinOp)
+			if !ok || bo.Op != token.NEQ || !core.IsNilConst(bo.Y) {
+				continue
+			}
+			ex, ok := bo.X.(*ssa.Extract)
+			if !ok {
+				continue
+			}
+			call, ok := ex.Tuple.(*ssa.Call)
+			if !ok {
+				continue
+			}
+			if f := core.CalleeFunc(call); f != nil && strings.HasPrefix(f.Name(), "ConvertTo") {
+				failed[f.Name()] = true
+			}
+		}
+		if len(failed) == 0 {
+			continue
+		}
+		n++
+		var names []string
+		for f := range failed {
+			names = append(names, f)
+		}
+		sort.Strings(names)
+		construct := fmt.Sprintf("metautils.checkRangeIndexHelper:prune-on-unparsable-literal#%d-only-after-float-parse-failed", n)
+		r.Check(failed["ConvertToFloat"], "GUARD", construct, c.Pos(ret.Pos()),
+			"the block is pruned for an unparsable literal only after the float parse failed too (the literal is not a number)",
+			fmt.Sprintf("the block is pruned because %s failed, without trying to read the literal as a float: a fractional literal (8.5, 30.0) against an integer-typed range index prunes every block, so the search returns nothing although events match", strings.Join(names, ", ")))
+	}
+	r.Floor("GUARD", "prune-on-parse-failure exits of the range index check", n, 3)
 }
 
 func firstPos(in ssa.Instruction, fallback ssa.Instruction) token.Pos {
